@@ -79,7 +79,7 @@ type History struct {
 
 // Stats summarises what a history exercised.
 type Stats struct {
-	Ticks, Skipped, Triggers, Resolutions, Failed, Aborted, EmptyActive, Reorgs, EffReorgs, LastSlotResolves, Unknown, Inactive int
+	Ticks, Skipped, Triggers, Resolutions, Failed, Aborted, EmptyActive, Reorgs, LastSlotResolves, Unknown, Inactive int
 }
 
 var genesis = time.Date(2023, 1, 1, 0, 0, 0, 0, time.UTC)
